@@ -196,6 +196,26 @@ static void compare(Ctx &ctx, const Val &tree, const Sched &s, bool &reached)
 		json_object_put(j);
 		ctx.fail("call-count", "visitor made " + str(a) + " calls, reference " + str(b) + " (schedule " + sd + ") tree=" + show(tree, 300));
 	}
+	// a traversal leaves nothing behind in the tree: visiting the same tree again, this time with CONTINUE everywhere,
+	// gives the full reference traversal whatever the first one returned and wherever it stopped
+	{
+		Sched all;
+		Rec ref2, got2;
+		ref2.s = &all;
+		got2.s = &all;
+		(void)ref_visit(root, nullptr, false, "", 0, ref2, true);
+		int rc2 = json_c_visit(j, 0, userfunc, &got2);
+		bool same = rc2 == 0 && ref2.log.size() == got2.log.size();
+		for (size_t i = 0; same && i < ref2.log.size(); i++)
+			same = ref2.log[i] == got2.log[i];
+		if (!same)
+		{
+			size_t a = got2.log.size(), b = ref2.log.size();
+			json_object_put(j);
+			ctx.fail("second-traversal", "a second traversal of the same tree (CONTINUE everywhere) returned " + str(rc2) + " after " + str(a) + " calls, the reference makes " + str(b) +
+			                                 " calls and returns 0; the first traversal used schedule " + sd + " tree=" + show(tree, 300));
+		}
+	}
 	json_object_put(j);
 }
 static int gen_code(Choices &c)
